@@ -63,3 +63,20 @@ pub fn step(max_ms: u64, with_panic: bool) -> BoxedStrategy<Step> {
 pub fn order(n: usize) -> BoxedStrategy<Vec<u8>> {
     proptest::collection::vec(any::<u8>(), 0..=n).boxed()
 }
+
+/// Applies builder setters in an order chosen by `perm` (0 = as written): rotation by `perm / 2`,
+/// reversed when `perm` is odd. Builder setters are documented as order-independent, so every
+/// order has to produce the same layer.
+pub fn apply_in_order<B>(mut b: B, mut setters: Vec<Box<dyn FnOnce(B) -> B>>, perm: u8) -> B {
+    let n = setters.len();
+    if n > 1 {
+        setters.rotate_left((perm as usize / 2) % n);
+        if perm % 2 == 1 {
+            setters.reverse();
+        }
+    }
+    for s in setters {
+        b = s(b);
+    }
+    b
+}
